@@ -6,6 +6,8 @@ FUNCTIONS = [
     # arbiter level: descending priority, one watcher after the other, warmup_delay apart
     'circus.arbiter:Arbiter.iter_watchers',
     'circus.arbiter:Arbiter._start_watchers',
+    # start / restart of a selection of watchers: the selection callable returns them sorted by priority
+    'circus.commands.restart:execute_watcher_start_stop_restart.watcher_iter_func',
 ]
 LEMMAS = []
 FRAMES = []
@@ -13,8 +15,8 @@ ASSUMPTIONS = ['A-PY', 'A-REAL', 'T-TORNADO gen.sleep(d) resumes after >= d (gho
                'time.time() reads the monotone ghost clock']
 TRUSTED = []
 NOT_DECIDED = ['real-time spacing (scheduler latency only adds delay)',
-               'the watcher_iter_func variants of _start_watchers (restart / start commands on a subset): the contract requires '
-               'watcher_iter_func is None',
+               'execute_watcher_start_stop_restart itself (name matching by glob / regex) is not under contract: that the '
+               'closure it builds is what reaches _start_watchers is by inspection (A-ITERFUNC)',
                'Arbiter.start / start_watchers wrappers and the reverse (lowest first) order used when stopping']
 DESIGN_REF = 'DESIGN.md section 8, C19'
 TECHNIQUE = 'contract-based deductive verification (ghost spawn log with clock stamps, loop invariant on spacing)'
